@@ -314,17 +314,25 @@ def coding_agreement(ctx):
     ctx.ok("C17.R2", "Content-Encoding: gzip <=> should_gzip and level > 0 <=> gzip writer (16 configurations)",
            detail={"configs": nok, "encoder_level_argument": sorted(levels_seen)})
     ctx.floor("C17.R2", nok, 16, what="configurations evaluated")
-    # R3: the negotiation input
+    negotiation_input(ctx, "C17.R3")
+
+
+def negotiation_input(ctx, R3):
+    """C17.R3 / C15.R3: the builder's negotiation flag is should_gzip(request headers) on every constructor path - whatever
+    the method -, the AsRequest impls hand out the request's own method / headers, and the setters replace one field only
+    (none of them rewrites the negotiation flag or the body-needed flag behind build()'s back)"""
+    B = find_builder(ctx)
+    r = B["roles"]
     sgt = r["sg_term"]
     s = repr(sgt)
     for o_, t_ in r.get("sg_partial", []):
         conds = [fmt_term(k)[:80] + "=" + str(v) for k, v in o_.cons.known.items()]
-        ctx.violation("C17.R3", "C17.R3|negotiation-skipped", "on a constructor path (%s) the builder's negotiation flag is the constant %s instead of "
+        ctx.violation(R3, R3 + "|negotiation-skipped", "on a constructor path (%s) the builder's negotiation flag is the constant %s instead of "
                       "should_gzip(request headers): headers and body coding no longer follow the client's Accept-Encoding there" % ("; ".join(conds[:3]), t_[1]))
     if "AsRequest::headers" not in s:
-        ctx.violation("C17.R3", "C17.R3|input", "should_gzip is not evaluated on the request's own headers: %s" % short(sgt, 100))
+        ctx.violation(R3, R3 + "|input", "should_gzip is not evaluated on the request's own headers: %s" % short(sgt, 100))
     else:
-        ctx.ok("C17.R3", "builder.should_gzip == should_gzip(AsRequest::headers(req))")
+        ctx.ok(R3, "builder.should_gzip == should_gzip(AsRequest::headers(req))")
     nimpl = 0
     for f in ctx.facts.fns.values():
         if f.get("impl_trait") == "AsRequest":
@@ -335,10 +343,10 @@ def coding_agreement(ctx):
             sv = repr(v)
             good = v is not None and (("Request::<T>::%s" % meth) in sv or ("'%s'" % meth) in sv) and "param" in sv
             if good:
-                ctx.ok("C17.R3", "%s returns the request's own %s" % (f["path"], meth))
+                ctx.ok(R3, "%s returns the request's own %s" % (f["path"], meth))
             else:
-                ctx.violation("C17.R3", "C17.R3|%s" % f["path"], "%s does not return the request's own %s: %s" % (f["path"], meth, short(v, 80)))
-    ctx.floor("C17.R3", nimpl, 4, confirmed=4, what="AsRequest accessor impls")
+                ctx.violation(R3, R3 + "|%s" % f["path"], "%s does not return the request's own %s: %s" % (f["path"], meth, short(v, 80)))
+    ctx.floor(R3, nimpl, 4, confirmed=4, what="AsRequest accessor impls")
     # setters keep the other fields
     for setter, field in (("with_chunk_size", r["chunk"]), ("with_gzip_level", r["level"])):
         for fn in inherent_fn(ctx, B["adt"], setter):
@@ -355,9 +363,9 @@ def coding_agreement(ctx):
                     else:
                         good = good and tt == ("field", ("param", 1), name)
             if good:
-                ctx.ok("C17.R3", "%s replaces only `%s`" % (setter, field))
+                ctx.ok(R3, "%s replaces only `%s`" % (setter, field))
             else:
-                ctx.violation("C17.R3", "C17.R3|setter|%s" % setter, "%s does not replace exactly the field `%s`: %s" % (setter, field, short(v, 120)))
+                ctx.violation(R3, R3 + "|setter|%s" % setter, "%s does not replace exactly the field `%s`: %s" % (setter, field, short(v, 120)))
 
 
 def writer_delegation(ctx, rule):
